@@ -82,7 +82,7 @@ func stGenAssign(r *fw.Rand) (string, stExp, bool) {
 		exr := map[string]string{"2": "i2", "2.5": Canon(ds.NewFloatVal(2.5)), "(1+1)": "i2"}[ex]
 		return cn + stBlank(r) + "*" + stBlank(r) + ex + stBlank(r) + r.Pick([]string{":", "="}) + stBlank(r) + v.text, stExp{"set.x1", cn, v.canon, exr, "", ""}, paren
 	case 6:
-		e := r.Pick([]string{"1d6+2", "(1d6+2)", "2d6", "力量*2"})
+		e := r.Pick([]string{"1d6+2", "(1d6+2)", "2d6", "力量*2", "2", "40", ".5", "(2.5)", "((3))", "0", "1d1"})
 		// a blank after the separator is part of the accepted spellings
 		return "&" + cn + stBlank(r) + r.Pick([]string{":", "="}) + stBlank(r) + e, stExp{"set", cn, fmt.Sprintf("cv(%q|{})", e), "NIL", "", ""}, strings.HasSuffix(e, ")")
 	default:
